@@ -32,12 +32,6 @@ Definition route_ok (f : form) (observed : route) : bool :=
 Definition route_found_ok (f : form) (observed : route) : bool :=
   route_eqb (route_of_found text_abs looks_id (source_of f)) observed.
 
-(* the die and the allocation with the text *)
-Definition die_text_ok (d : die) (written : ytree) (loaded : option die) (real : text_abs) : bool :=
-  die_ok d written loaded && text_ok written real.
-Definition alloc_text_ok (aeps : Qc) (cells : list cell) (written : ytree) (loaded : option (list cell))
-           (real : text_abs) : bool :=
-  alloc_case_ok aeps cells written loaded && text_ok written real.
-(* large allocations: the writer's tree and the text only (the reader's model is quadratic: no_overlap) *)
-Definition alloc_write_ok (cells : list cell) (written : ytree) (real : text_abs) : bool :=
-  ytree_sim 0 (write_alloc cells) written && text_ok written real.
+(* large allocations: the writer's tree only (the reader's model is quadratic: no_overlap) *)
+Definition alloc_write_ok (cells : list cell) (written : ytree) : bool :=
+  ytree_sim 0 (write_alloc cells) written.
